@@ -27,6 +27,7 @@ func runC18(c *Ctx) {
 	c.Clause("C18.6 the client reads the request body only through the cancelingReader wrapper")
 	c.Clause("C18.7 http3 state shared between request goroutines (server listeners / closed flag, transport client map, tracked streams, stream-ID watermarks) is accessed under its owner's mutex")
 	c.Clause("C18.8 responseWriter.Write counts and limit-checks every byte before accepting it, HEAD included")
+	c.Clause("C18.10 a body / DATA frame that ends early is io.ErrUnexpectedEOF on the reading side, and a request body whose length differs from ContentLength is refused on the sending side")
 	c.Clause("C18.9 decoded header and trailer fields accumulate under repeated names")
 	c.NotCovered("end-to-end equality of what the handler sees and what the client sent")
 	c.NotCovered("behaviour under packet loss (delegated to the QUIC layer properties)")
@@ -40,6 +41,7 @@ func runC18(c *Ctx) {
 	c.rule("C18.7", func() { c18Guarded(c) })
 	c.rule("C18.8", func() { c18WriteAccounting(c) })
 	c.rule("C18.9", func() { c18FieldsAccumulate(c) })
+	c.rule("C18.10", func() { c18ShortBodies(c) })
 }
 
 func c18Nil(c *Ctx) {
@@ -175,7 +177,19 @@ func c18Body(c *Ctx) {
 	respCL := c.fld("net/http", "Response", "ContentLength")
 	c.Floor(R, "newResponseBody calls", countInstr(rr, CallsTo(nrb)), 1)
 	for _, in := range findInstrs(rr, CallsTo(nrb)) {
-		c.Check(Load(respCL)(in.(ssa.CallInstruction).Common().Args[1]), R, "origin:response body limit = parsed Content-Length", c.P.InstrPos(in), "the enforced length is the response's Content-Length")
+		arg := in.(ssa.CallInstruction).Common().Args[1]
+		// the parsed Content-Length, or "undeclared" (-1) for responses that carry a Content-Length without content
+		// (HEAD, 304): every value flowing in is one of the two
+		okOrigin := Load(respCL)(arg)
+		if ph, isPhi := arg.(*ssa.Phi); isPhi && !okOrigin {
+			okOrigin = true
+			for _, e := range ph.Edges {
+				if !(Load(respCL)(e) || ConstI(-1)(e)) {
+					okOrigin = false
+				}
+			}
+		}
+		c.Check(okOrigin, R, "origin:response body limit = parsed Content-Length", c.P.InstrPos(in), "the enforced length is the response's Content-Length (or none, for responses without content)")
 	}
 	c.cut(R, "order:response body limit taken before Content-Length is rewritten", &Cut{Fn: rr, Start: CallsTo(upd), Target: StoresTo(respCL), Barrier: CallsTo(nrb)},
 		"no store to Response.ContentLength happens between parsing the headers and fixing the body limit (the 1xx/204/CONNECT rewrite to 0 is cosmetic)")
@@ -452,6 +466,7 @@ func runC19(c *Ctx) {
 	c.Clause("C19.6 in the request and response writers no pseudo-header emission is reachable from a regular-field emission")
 	c.Clause("C19.7 the response writer tests the Trailer: prefix on the key as set by the handler, not on the lower-cased name")
 	c.Clause("C19.8 parseHeaders does not use the emptiness of a stored value as its not-seen-yet marker (duplicate pseudo-headers, Content-Length)")
+	c.Clause("C19.10 an empty Request.Method is written as GET")
 	c.Clause("C19.9 the request writer classifies a request as Extended CONNECT only for method CONNECT and a non-empty protocol, the condition the parser uses")
 	c.NotCovered("httpguts predicates themselves; semantic equality of decoded fields")
 
@@ -464,6 +479,7 @@ func runC19(c *Ctx) {
 	c.rule("C19.7", func() { c19TrailerPrefixBeforeLower(c) })
 	c.rule("C19.8", func() { c19NoEmptinessAsSeenMarker(c) })
 	c.rule("C19.9", func() { c19ExtendedConnectAgreement(c) })
+	c.rule("C19.10", func() { c19EmptyMethodIsGET(c) })
 }
 
 // callsParam: call of the function-typed parameter with the given name.
